@@ -279,6 +279,8 @@ pub fn check_text(t: &str, stats: &mut Stats) {
             if out != direct {
                 let sig = if bom_led {
                     "C18/differs-from-direct-load/text-starts-with-bom".to_string()
+                } else if t.chars().take(2).any(|c| c == '\0') {
+                    "C18/differs-from-direct-load/nul-among-the-first-two-characters".to_string()
                 } else {
                     format!("C18/differs-from-direct-load/text/{}", ENCODINGS[enc])
                 };
@@ -549,6 +551,14 @@ pub fn run_c18(tier: &str, seed: u64, shard: u64, nshards: u64, scale: f64, stat
         let trap = r.below(4);
         check_bytes(&b, trap, stats);
         stats.eval(Some(&b));
+    }
+    // texts with U+0000 (an ASCII character) among the first two characters: encoding detection
+    // looks at zero bytes there
+    if shard == 0 {
+        for t in ["a\0bc", "\0a", "k\0: v\n", "\0\u{1F600}"] {
+            check_text(t, stats);
+            stats.cnt("texts_with_nul_among_first_two_characters", 1);
+        }
     }
     // (n) damaged UTF-8 under the continuing traps
     let per = ((if thorough { 400_000.0 } else { 20_000.0 }) * scale) as u64 / nshards;
